@@ -402,6 +402,34 @@ func c08Order(c *Ctx) {
 			switch x := in.(type) {
 			case *ssa.Go:
 				bad = append(bad, "go statement")
+			case *ssa.If:
+				// what is recorded does not depend on how much the record already holds
+				var lens func(v ssa.Value, depth int) bool
+				lens = func(v ssa.Value, depth int) bool {
+					if depth > 4 {
+						return false
+					}
+					switch y := v.(type) {
+					case *ssa.BinOp:
+						return lens(y.X, depth+1) || lens(y.Y, depth+1)
+					case *ssa.UnOp:
+						return lens(y.X, depth+1)
+					case *ssa.Phi:
+						for _, e := range y.Edges {
+							if lens(e, depth+1) {
+								return true
+							}
+						}
+					case *ssa.Call:
+						if bi, isBI := y.Common().Value.(*ssa.Builtin); isBI && bi.Name() == "len" && loadOfOrdered(y.Common().Args[0]) {
+							return true
+						}
+					}
+					return false
+				}
+				if lens(x.Cond, 0) && !flow.InCycle(x.Block()) {
+					bad = append(bad, "a decision depends on how many elements the record already holds ("+c.pos(x)+"): elements beyond a limit are dropped silently")
+				}
 			case *ssa.Store:
 				// a record only grows: it is never cut down or overwritten in place
 				if _, is := isOrderedAddr(x.Addr); is {
